@@ -456,6 +456,30 @@ func VerifWalParse(raw []byte) (recs []VerifWalRec, err error, panicMsg string) 
 	return recs, err, ""
 }
 
+// VerifWalParseFile runs the real log reader over a log file and reports the
+// file's size afterwards (the reader cuts a torn tail off).
+func VerifWalParseFile(path string) (recs []VerifWalRec, err error, panicMsg string, size int64) {
+	defer func() {
+		if r := recover(); r != nil {
+			panicMsg = fmt.Sprint(r)
+		}
+	}()
+	file, err := os.OpenFile(path, os.O_CREATE|os.O_RDWR|os.O_APPEND, 0644)
+	if err != nil {
+		return nil, err, "", 0
+	}
+	w := &wal{reader: file, forceSync: true}
+	defer w.close()
+	batch, err := w.read()
+	for _, e := range batch {
+		recs = append(recs, VerifWalRec{uint8(e.WALOp), e.LSN, e.pageID, e.cellID, e.val})
+	}
+	if st, serr := file.Stat(); serr == nil {
+		size = st.Size()
+	}
+	return recs, err, "", size
+}
+
 type verifBuf struct{ *bytes.Buffer }
 
 func (verifBuf) Close() error { return nil }
